@@ -1193,12 +1193,11 @@ class PSFPhotometry(ModelImageMixin):
 
         flags[self.fit_info['fit_error_indices']] += 8
 
-        try:
-            for index, fit_info in enumerate(self.fit_info['fit_infos']):
-                if fit_info['param_cov'] is None:
-                    flags[index] += 16
-        except KeyError:
-            pass
+        # param_cov is missing from fit_info if the fitter did not
+        # return a covariance matrix
+        for index, fit_info in enumerate(self.fit_info['fit_infos']):
+            if fit_info.get('param_cov', None) is None:
+                flags[index] += 16
 
         # add flag = 32 if x or y fitted value is at the bounds
         if self.xy_bounds is not None:
